@@ -242,8 +242,23 @@ func JSONMethods(c *core.Ctx) {
 					hasNull := func(list []ast.Stmt) bool {
 						for _, s := range list {
 							if nodeContains(s, true, func(x ast.Node) bool {
-								bl, ok := x.(*ast.BasicLit)
-								return ok && bl.Value == `"null"`
+								if bl, ok := x.(*ast.BasicLit); ok && bl.Value == `"null"` {
+									return true
+								}
+								// a module helper whose body is `return []byte("null")` (jsonNull())
+								if call, ok := x.(*ast.CallExpr); ok && len(call.Args) == 0 {
+									if callee := calleeOf(info, call); callee != nil && callee.Pkg() != nil && strings.HasPrefix(callee.Pkg().Path(), core.ModPath) {
+										if hfd := c.FuncDecl(callee.Origin()); hfd != nil && hfd.Body != nil && len(hfd.Body.List) == 1 {
+											if r, ok := hfd.Body.List[0].(*ast.ReturnStmt); ok && len(r.Results) == 1 {
+												return nodeContains(r.Results[0], true, func(y ast.Node) bool {
+													bl, ok := y.(*ast.BasicLit)
+													return ok && bl.Value == `"null"`
+												})
+											}
+										}
+									}
+								}
+								return false
 							}) {
 								return true
 							}
